@@ -282,5 +282,24 @@ mod verif_inflate_stream {
         }
     }
 
+    /// the format a reset asks for is the format the next stream is decoded with -- for every pair of formats, also the
+    /// two zlib flavours that differ only in whether the Adler-32 trailer is verified; the other policies keep it
+    #[kani::proof]
+    fn k_reset_format_selection() {
+        let mut s = InflateState::new(any_format());
+        let _ = havoc_state(&mut s);
+        let before = s.data_format;
+        let want = any_format();
+        let which: u8 = kani::any();
+        match which % 4 {
+            0 => { s.reset_as(FullReset(want)); assert!(s.data_format == want, "OBL:reset.full_reset_selects_exactly_the_requested_format [C09 C16 C18]"); }
+            1 => { s.reset(want); assert!(s.data_format == want, "OBL:reset.reset_selects_exactly_the_requested_format [C09 C16 C18]"); }
+            2 => { s.reset_as(ZeroReset); assert!(s.data_format == before, "OBL:reset.zero_reset_keeps_the_format [C09 C18]"); }
+            _ => { s.reset_as(MinReset); assert!(s.data_format == before, "OBL:reset.min_reset_keeps_the_format [C09 C18]"); }
+        }
+        assert!(scalars_fresh(&s), "OBL:reset.wrapper_scalars_fresh_after_any_policy [C18 C13]");
+        kani::cover!(which % 4 == 0 && before == DataFormat::ZLibIgnoreChecksum && want == DataFormat::Zlib, "COV:reset.ignore_checksum_to_zlib");
+    }
+
     //@PLAYBACK@
 }
